@@ -260,6 +260,7 @@ func c06List(tier string, seed int64) []c06Case {
 	add("directed-open-on-ended-context", 1000, tierN(tier, 16, 160))
 	add("directed-refused-open", 1000, tierN(tier, 8, 80))
 	add("directed-bodies-after-server-deadline", 1000, tierN(tier, 4, 40))
+	add("directed-closesend-after-reset", 1000, tierN(tier, 6, 36))
 	return out
 }
 
@@ -558,6 +559,65 @@ func c06BodiesAfterDeadline(tier string, seed int64, idx int) *core.Result {
 	return res
 }
 
+// c06CloseSendAfterReset: the caller gives the stream up (cancel, manual deadline, or a send that
+// cannot be encoded), the client's reset goes out, and the application then half-closes the stream
+// all the same (a deferred tidy-up), over a transport that completes a write on an ended context
+// when it does not have to wait. The reset is the client's final envelope: the wire automaton
+// flags anything that follows it.
+func c06CloseSendAfterReset(tier string, seed int64, idx int) *core.Result {
+	res := &core.Result{Verdict: core.Held}
+	h := bed.NewHooks()
+	h.Install()
+	b := bed.New(bed.Opts{Cap: 8, Serialise: idx%2 == 0})
+	b.Links[0].Eager = true
+	kind := []string{"bidi", "client"}[idx%2]
+	tag := fmt.Sprintf("csar%d", idx)
+	b.Impl.SetStream(tag, func(t, k string, ss grpc.ServerStream) error {
+		for ss.RecvMsg(new(svc.BV)) == nil {
+		}
+		return ss.Context().Err()
+	})
+	m := svc.NewManualCtx(context.Background())
+	s, err := svc.Open(m, b.Conns[0], kind, tag, nil)
+	if err != nil {
+		res.Verdict, res.Note = core.Inconclusive, "open failed: "+err.Error()
+		finish(tier, b, h, res)
+		return res
+	}
+	s.Send([]byte("one"))
+	quiet(tier)
+	switch idx % 3 {
+	case 0:
+		m.Cancel()
+	case 1:
+		m.Fire()
+	default:
+		s.SendMsg(struct{ X int }{1}) // cannot be encoded: aborts the stream locally
+	}
+	quiet(tier) // the reset is on the wire
+	done := make(chan struct{})
+	go func() {
+		defer close(done)
+		s.CloseSend()
+		if kind == "client" {
+			s.CloseAndRecv()
+		}
+	}()
+	settle(tier, func() bool {
+		select {
+		case <-done:
+			return true
+		default:
+			return false
+		}
+	})
+	quiet(tier)
+	res.Stat("closesend_after_reset", 1)
+	svc.Invoke(context.Background(), b.Conns[0], fmt.Sprintf("csar-after%d", idx), []byte("x"))
+	finish(tier, b, h, res)
+	return res
+}
+
 // c06RefusedOpen: a stream open the server must refuse (undecodable request metadata), written
 // raw onto a live connection next to ordinary traffic. The server's whole history for that id is
 // one reset: no handler runs, nothing else is emitted.
@@ -705,6 +765,8 @@ func c06Run(tier string, seed int64, idx int) *core.Result {
 		sub = c06RefusedOpen(tier, seed, c.Index)
 	case "directed-bodies-after-server-deadline":
 		sub = c06BodiesAfterDeadline(tier, seed, c.Index)
+	case "directed-closesend-after-reset":
+		sub = c06CloseSendAfterReset(tier, seed, c.Index)
 	case "C01":
 		sub = c01Run(tier, seed, c.Index)
 	case "C02":
@@ -726,7 +788,7 @@ func c06Run(tier string, seed int64, idx int) *core.Result {
 	}
 	// each check reports only its own property: what the workload's own oracle found is not C06's business
 	for k, v := range sub.Stats {
-		if k == "send_parked_across_cancel" || k == "unary_deadline_in_handler" || k == "cancel_during_open_write" || k == "reset_after_handler_returned" || k == "open_on_ended_context" || k == "refused_opens" || k == "bodies_after_server_deadline" {
+		if k == "send_parked_across_cancel" || k == "unary_deadline_in_handler" || k == "cancel_during_open_write" || k == "reset_after_handler_returned" || k == "open_on_ended_context" || k == "refused_opens" || k == "bodies_after_server_deadline" || k == "closesend_after_reset" {
 			res.Stat(k, v)
 		}
 	}
@@ -772,11 +834,11 @@ func init() {
 	core.Register(&core.Prop{
 		ID:    "C06",
 		Level: "exploration",
-		Rule:  "trace checking: a fixed-seed sample of the C01, C02, C03 (matrix and race families), C07 and C11 case lists (quick ~850 cases, thorough ~11 500) is re-run and every client link's tap log is projected per (id, direction) and fed to the protocol automata (stream open / body* / trailer+status / resets; unary exactly one request and one response; constant and swapped header fields; metadata only on the first response; server emits only for received ids; server reset only after a body and never before the trailer; end-of-history rules: stream handler returned, no client reset, connection alive => trailer; unary handler returned, connection alive => one response; a client reset is never the first envelope of an id), plus directed families: a send parked across a cancel, a unary deadline expiring inside the handler, a cancel while the opening envelope is inside the transport Write, a client reset reaching the server after the handler returned (trailer held in the writer), a call started on a context that has already ended, a raw stream open with undecodable metadata next to ordinary traffic (the server answers with exactly one reset), bodies arriving after the server-side deadline of a stream whose handler is still running (no reset for a stream the server still knows). evaluations = workload cases; non-trivial = the case's wire history contains a reset or a non-OK trailer; distinct = distinct (workload, index).",
+		Rule:  "trace checking: a fixed-seed sample of the C01, C02, C03 (matrix and race families), C07 and C11 case lists (quick ~850 cases, thorough ~11 500) is re-run and every client link's tap log is projected per (id, direction) and fed to the protocol automata (stream open / body* / trailer+status / resets; unary exactly one request and one response; constant and swapped header fields; metadata only on the first response; server emits only for received ids; server reset only after a body and never before the trailer; end-of-history rules: stream handler returned, no client reset, connection alive => trailer; unary handler returned, connection alive => one response; a client reset is never the first envelope of an id), plus directed families: a send parked across a cancel, a unary deadline expiring inside the handler, a cancel while the opening envelope is inside the transport Write, a client reset reaching the server after the handler returned (trailer held in the writer), a call started on a context that has already ended, a raw stream open with undecodable metadata next to ordinary traffic (the server answers with exactly one reset), bodies arriving after the server-side deadline of a stream whose handler is still running (no reset for a stream the server still knows; exactly one trailer when the handler then returns), a half-close issued by the application after the client has reset the stream (cancel, deadline, unencodable send) over a transport that completes writes on an ended context. evaluations = workload cases; non-trivial = the case's wire history contains a reset or a non-OK trailer; distinct = distinct (workload, index).",
 		Plan:  func(tier string, seed int64) int { return len(c06List(tier, seed)) },
 		Run:   c06Run,
 		RequiredStats: func(string) []string {
-			return []string{"projections", "projections_with_reset_or_error", "handler_returns_checked", "envelopes", "send_parked_across_cancel", "unary_deadline_in_handler", "cancel_during_open_write", "reset_after_handler_returned", "open_on_ended_context", "refused_opens", "bodies_after_server_deadline"}
+			return []string{"projections", "projections_with_reset_or_error", "handler_returns_checked", "envelopes", "send_parked_across_cancel", "unary_deadline_in_handler", "cancel_during_open_write", "reset_after_handler_returned", "open_on_ended_context", "refused_opens", "bodies_after_server_deadline", "closesend_after_reset"}
 		},
 		Assumptions: []string{"the automata are transcribed from README.md and the property statement", "only client-side links are checked (one client = one id space)"},
 	})
